@@ -173,3 +173,23 @@ Theorem C03_collection_exec_allocate_array_always_described : forall log2 s sp s
   exists s' r evs, uc_step log2 s (CAllocArray size bytes a1 a2) = Some (s', r, evs) /\ UExt log2 s'.
 Proof. exact ucoll_alloc_array_progress. Qed.
 Print Assumptions C03_collection_exec_allocate_array_always_described.
+
+(* the same for array requests of the collection over the address-ordered list (array_pool): the block inserted by the last growth
+   stage sits in the list as a run of consecutive nodes, which the run search finds wherever it starts *)
+Theorem C03_ordered_collection_exec_allocate_array_always_described : forall log2 s sp size bytes a1 a2, OCPR s sp -> OExt log2 s -> 0 < size <= cc_max _ s -> size <= bytes ->
+  oarray_answers_ok64 log2 s sp size a1 a2 ->
+  exists s' r evs, oc_step log2 s (CAllocArray size bytes a1 a2) = Some (s', r, evs) /\ OExt log2 s'.
+Proof. exact ocoll_alloc_array_progress. Qed.
+Print Assumptions C03_ordered_collection_exec_allocate_array_always_described.
+
+(* every history of node and array requests (throwing and composable) and releases of memory that is out, from a constructed collection
+   over the intrusive or the address-ordered list: every step is described by the model -- no assertion of the implementation is
+   reachable --, accepted by the Spec, and the invariants hold at the end *)
+Theorem C03_collection_exec_histories_never_stuck : forall log2 os s sp, UCPR s sp -> UExt log2 s -> urequest_history_ok log2 s sp os ->
+  exists s' tr sp', uc_run log2 s os = Some (s', tr) /\ PoolSpecProofs.run sp tr = Some sp' /\ UCPR s' sp' /\ UExt log2 s'.
+Proof. exact ucoll_request_history_progress. Qed.
+Print Assumptions C03_collection_exec_histories_never_stuck.
+Theorem C03_ordered_collection_exec_histories_never_stuck : forall log2 os s sp, OCPR s sp -> OExt log2 s -> orequest_history_ok log2 s sp os ->
+  exists s' tr sp', oc_run log2 s os = Some (s', tr) /\ PoolSpecProofs.run sp tr = Some sp' /\ OCPR s' sp' /\ OExt log2 s'.
+Proof. exact ocoll_request_history_progress. Qed.
+Print Assumptions C03_ordered_collection_exec_histories_never_stuck.
